@@ -340,48 +340,36 @@ func ruleRefusals(c *Ctx) []Ob {
 		}
 	}
 	s.check(okDup, "duplicate-id", c.Pos(rfd.Pos()), "a second field with the same id is refused", "duplicate field ids are not refused")
-	// requiredness and option switches
-	swDefaultErr := func(tagExpr string, wantCases map[string]string, key string) {
-		found := false
-		ast.Inspect(rfd, func(n ast.Node) bool {
-			x, ok := n.(*ast.SwitchStmt)
-			if !ok || x.Tag == nil || nows(types.ExprString(x.Tag)) != tagExpr {
-				return true
-			}
-			found = true
-			defErr := false
-			got := map[string]string{}
-			for _, cl := range x.Body.List {
-				cc := cl.(*ast.CaseClause)
-				if cc.List == nil {
-					defErr = returnsErr(&ast.BlockStmt{List: cc.Body})
-					continue
-				}
-				for _, e := range cc.List {
-					val := ""
-					if len(cc.Body) > 0 {
-						if as, ok := cc.Body[0].(*ast.AssignStmt); ok {
-							val = nows(types.ExprString(as.Rhs[0]))
-						}
-					}
-					got[nows(types.ExprString(e))] = val
+	// requiredness and option keywords: an unknown word is refused, each known word yields its own constant
+	{
+		want := map[string]int64{}
+		for w, cn := range map[string]string{"default": "Default", "required": "Required", "optional": "Optional"} {
+			v, _ := c.constOf(pkgDefs, cn)
+			want[w] = v
+		}
+		fn, cmps := c.keywordFn(pkgDefs, []string{"default", "required", "optional"})
+		if fn == nil {
+			s.bad("requiredness", c.Pos(rfd.Pos()), "no function compares one value against all of default / required / optional")
+		} else {
+			okR, why := c.refusesUnknown(fn, cmps)
+			got := wordConstants(fn, cmps)
+			var wrong []string
+			for w, v := range want {
+				if len(got[w]) != 1 || got[w][0] != v {
+					wrong = append(wrong, fmt.Sprintf("%q yields %v, expected %d", w, got[w], v))
 				}
 			}
-			good := defErr
-			for k, v := range wantCases {
-				if gv, ok := got[k]; !ok || (v != "" && gv != v) {
-					good = false
-				}
-			}
-			s.check(good, key, c.Pos(x.Pos()), "unknown words are refused, known ones mapped", fmt.Sprintf("switch on %s: default returns error = %v, cases %v, expected %v", tagExpr, defErr, got, wantCases))
-			return true
-		})
-		if !found {
-			s.bad(key, c.Pos(rfd.Pos()), "no switch on "+tagExpr)
+			sort.Strings(wrong)
+			s.check(okR && len(wrong) == 0, "requiredness", c.Pos(fn.Pos()), "unknown words are refused, known ones mapped ("+why+")", "requiredness keywords in "+fn.Name()+": "+why+"; "+strings.Join(wrong, "; "))
+		}
+		fn, cmps = c.keywordFn(pkgDefs, []string{"nocopy"})
+		if fn == nil {
+			s.bad("options", c.Pos(rfd.Pos()), "no comparison against the option keyword nocopy")
+		} else {
+			okR, why := c.refusesUnknown(fn, cmps)
+			s.check(okR, "options", c.Pos(fn.Pos()), "unknown options are refused ("+why+")", "option keywords in "+fn.Name()+": "+why)
 		}
 	}
-	swDefaultErr("tv", map[string]string{`"default"`: "Default", `"required"`: "Required", `"optional"`: "Optional"}, "requiredness")
-	swDefaultErr("opt", map[string]string{`"nocopy"`: ""}, "options")
 	c.guard(s, pkgDefs, rf, "nocopy-type", []string{"pt.Tag()!=T_string"}, "nocopy on a non-string/binary field", "a numeric or container field would be decoded by the zero-copy string routine")
 	c.guard(s, pkgDefs, rf, "nocopy-duplicate", []string{"fv&NoCopy!=0"}, "duplicated nocopy option", "")
 	c.guard(s, pkgDefs, rf, "non-optional-pointer", []string{"rx!=Optional", "pt.T==T_pointer", "pt.V.T!=T_struct"}, "non-optional scalar pointer", "a required *i32 would be encoded through a possibly nil pointer")
@@ -834,20 +822,37 @@ func ruleE12(c *Ctx) []Ob {
 		}
 	}
 	s.check(untagged, "skip-untagged", c.Pos(rfd.Pos()), "untagged fields are ignored", "fields without a frugal/thrift tag are not skipped")
-	// missing requiredness -> default
+	// missing requiredness -> default: the value compared against the requiredness keywords can be the constant "default",
+	// chosen when no tag value is left
 	okDef := false
-	ast.Inspect(rfd, func(n ast.Node) bool {
-		is, ok := n.(*ast.IfStmt)
-		if !ok || nows(types.ExprString(is.Cond)) != "len(ft)==0" {
-			return true
+	if fn, cmps := c.keywordFn(pkgDefs, []string{"default", "required", "optional"}); fn != nil {
+		var xs []ssa.Value
+		if prm, ok := cmps[0].x.(*ssa.Parameter); ok {
+			for k, fp := range fn.Params {
+				if fp != prm {
+					continue
+				}
+				for _, caller := range c.ModuleFuncs(pkgDefs) {
+					for _, cb := range caller.Blocks {
+						for _, ins := range cb.Instrs {
+							if call, ok := ins.(*ssa.Call); ok && call.Call.StaticCallee() == fn && k < len(call.Call.Args) {
+								xs = append(xs, call.Call.Args[k])
+							}
+						}
+					}
+				}
+			}
+		} else {
+			xs = append(xs, cmps[0].x)
 		}
-		for _, st := range is.Body.List {
-			if as, ok := st.(*ast.AssignStmt); ok && len(as.Rhs) >= 1 && nows(types.ExprString(as.Rhs[0])) == `"default"` {
-				okDef = true
+		for _, x := range xs {
+			for _, src := range valueSources(x, 0) {
+				if w, ok := strConst(src.v); ok && w == "default" && emptyLenCond(src.conds) {
+					okDef = true
+				}
 			}
 		}
-		return true
-	})
+	}
 	s.check(okDef, "requiredness-default", c.Pos(rfd.Pos()), "omitted requiredness means default", "an omitted requiredness is not read as \"default\"")
 	// sort by id
 	okSort := false
@@ -1005,4 +1010,40 @@ func (c *Ctx) defsTags() map[string]int64 {
 		}
 	}
 	return out
+}
+
+// keywordFn: the function of pkg that compares one value against every given word, with those comparisons.
+func (c *Ctx) keywordFn(pkg string, words []string) (*ssa.Function, []wordCmp) {
+	set := map[string]bool{}
+	for _, w := range words {
+		set[w] = true
+	}
+	all := c.wordCompares(pkg, set)
+	var fns []*ssa.Function
+	for fn := range all {
+		fns = append(fns, fn)
+	}
+	sort.Slice(fns, func(i, j int) bool { return fns[i].Pos() < fns[j].Pos() })
+	for _, fn := range fns {
+		// group by compared value
+		by := map[string][]wordCmp{}
+		for _, wc := range all[fn] {
+			by[path(wc.x)] = append(by[path(wc.x)], wc)
+		}
+		var keys []string
+		for k := range by {
+			keys = append(keys, k)
+		}
+		sort.Strings(keys)
+		for _, k := range keys {
+			have := map[string]bool{}
+			for _, wc := range by[k] {
+				have[wc.word] = true
+			}
+			if len(have) == len(set) {
+				return fn, by[k]
+			}
+		}
+	}
+	return nil, nil
 }
